@@ -141,4 +141,26 @@ pub proof fn lemma_gcd_spec(a: nat, b: nat)
     }
 }
 
+
+/// gcd(n, s) for 0 < s < 2n, s != n is a divisor of n strictly between 0 and n
+pub proof fn lemma_proper_gcd(n: nat, s: nat)
+    requires n >= 1, 0 < s < 2 * n, s != n
+    ensures gcd_spec(n, s) > 0, n % gcd_spec(n, s) == 0, gcd_spec(n, s) < n,
+{
+    lemma_gcd_spec(n, s);
+    let g = gcd_spec(n, s);
+    if g >= n {
+        // g | n and g >= n  ==>  g == n, so n | s: impossible for 0 < s < 2n, s != n
+        let k = lemma_dvd_witness(g, n);
+        if k == 0 { super::nl::lemma_mul_one(g as int); }
+        if k >= 2 { super::nl::lemma_mul_le(2, k as int, g as int); super::nl::lemma_mul_comm(g as int, k as int); }
+        super::nl::lemma_mul_one(g as int);
+        assert(g == n);
+        let j = lemma_dvd_witness(n, s);
+        if j == 0 { super::nl::lemma_mul_one(n as int); }
+        if j >= 2 { super::nl::lemma_mul_le(2, j as int, n as int); super::nl::lemma_mul_comm(n as int, j as int); }
+        assert(false);
+    }
+}
+
 } // verus!
